@@ -52,6 +52,9 @@ def run(ctx):
     cachedview.run(ctx, fx, 'src/cache/buffer.rs', 'cache::buffer::CacheBuffer', 'data_buffer', 'data_slice')
     ctx.floor('R-CACHEDVIEW.builders', 1)
     ctx.floor('R-CACHEDVIEW.events', 4)
+    cachedview.setters_always_refresh(ctx, fx, 'src/cache/buffer.rs', 'cache::buffer::CacheBuffer', 'data_slice',
+                                      ('copy_from_slice', 'setup_multi_page', 'clear'))
+    ctx.floor('R-CACHEDVIEW.set.setters', 2)
     parallel.clear_all(ctx, fx, ['src/containers/specialized/lru_map.rs', 'src/containers/specialized/concurrent_lru_map.rs'])
     ctx.floor('R-CLEAR.fields', 3)
     ev = need(fx, LM + "evict_lru")
@@ -177,7 +180,8 @@ def run(ctx):
                     "every path to a normal return from, each access to LruNode.value in get/put. R-LOCKCOV.lru: a guard of "
                     "LruMap.hash_map is live at every LruList operation of the map's methods. R-CACHEDVIEW: in CacheBuffer every call that can move or "
                     "resize data_buffer (reserve/extend/resize/clear/replace, also inside private helpers) is followed on every path to a "
-                    "normal return by a store to data_slice (paths on which data_slice is None excepted). R-PURE: LruMap::contains_key/len/is_empty/"
+                    "normal return by a store to data_slice (paths on which data_slice is None excepted); the replacing methods copy_from_slice / setup_multi_page / clear store "
+                    "data_slice on every path from entry to return (R-CACHEDVIEW.set). R-PURE: LruMap::contains_key/len/is_empty/"
                     "capacity reach (three levels of crate-local callees) no LruList reordering call and no evict_lru.",
         trusted_base=["rustc nightly MIR", "zfacts", "rules/order.py", "rules/lru.py", "rules/cachedview.py", "rules/sync.py (guard liveness)", "props/C17.py tables"],
         rule_text="obligation = ordering pair | callback entry identity | caller of on_evict | strategy arm",
